@@ -11,6 +11,8 @@ The in-process correspondence drives the renderer packages directly and has to c
 * `--format` expressions that read the range: every number `rare bars` / `rare tabulate` print must be the
   aggregated number under the formatter WITH THE RANGE OF THE FINAL STATE (`N of MAX` on every row), whatever
   was formatted before.
+* `rare histo`: every key with at least `--atleast` samples is displayed with its count – also rows with count 0 or a
+  negative count whose key widens the key column (not drawn before 7b183e0).
 * every renderer command on generated inputs with awkward keys and limits: no panic, exit status 0.
 """
 import os, re, subprocess, sys
@@ -160,6 +162,44 @@ def run(ctx):
                 shown[m.group(1)] = (int(m.group(2)), int(m.group(3)))
         if shown != want:
             viol("tabulate-format-range", input=lines, format="{0}/{2}", shown=shown, want=want)
+
+    # ---------------------------------------------------------------- histogram: every displayed key with its count
+    # (7b183e0: a row with count 0 – or a negative count under --atleast – whose key widens the key column was not drawn)
+    n_histo = 15 if quick else 150
+    for i in range(n_histo):
+        keys = distinct(["a", "bb", "k" * 17, "w" * 23, "日本語のキーはここにあります長い", "zero-count-and-long-key", "x"], 2 + r.intn(4))
+        counts = {}
+        lines = []
+        for j, k in enumerate(keys):
+            if i == 0:
+                v = [3, 0, 2, 0, 1, 0][j]   # the witness: a long key with count 0 after a short one
+                lines.append("%s %d" % (k, v))
+                counts[k] = counts.get(k, 0) + v
+                continue
+            for _ in range(1 + r.intn(3)):
+                v = r.pick([0, 0, 1, 2, 5, -1, -4, 30])
+                lines.append("%s %d" % (k, v))
+                counts[k] = counts.get(k, 0) + v
+        if i == 0:
+            keys = ["b", "zero-count-and-long-key", "c"]
+            counts = {"b": 3, "zero-count-and-long-key": 0, "c": 2}
+            lines = ["b 3", "zero-count-and-long-key 0", "c 2"]
+        at_least = r.pick([0, 0, -100]) if i else 0
+        data = "".join(l + "\n" for l in lines).encode("utf-8")
+        cmd = ["histo", "--snapshot", "-n", "20", "--atleast", str(at_least), "-m", r"^(\S+) (-?\d+)$", "-e", "{$ {1} {2}}", "--format", "={0}="]
+        p = subprocess.run([exe] + cmd, input=data, stdout=subprocess.PIPE, stderr=subprocess.PIPE, timeout=60)
+        runs += 1
+        if _panicked(p) or p.returncode not in (0, 1):
+            viol("histo-cli-failed", argv=cmd, input=lines, rc=p.returncode, stderr=p.stderr.decode("utf-8", "replace")[-600:])
+            continue
+        shown = {}
+        for line in p.stdout.decode("utf-8", "replace").split("\n"):
+            mm = re.match(r"^(\S+)\s+=(-?\d+)=\s*$", line)
+            if mm:
+                shown[mm.group(1)] = int(mm.group(2))
+        want = {k: v for k, v in counts.items() if v >= at_least}
+        if shown != want:
+            viol("histo-rows-vs-counts", argv=cmd, input=lines, shown=shown, want=want)
 
     # ---------------------------------------------------------------- no panic, any renderer command
     n_sweep = 12 if quick else 120
